@@ -349,10 +349,10 @@ def shard_run(arg):
 
 def run(tier, seed, work):
     res = vp.Result("C02", tier, seed, "exploration")
-    maxlen = 3 if tier == "quick" else 4
+    maxlen = 3 if tier == "quick" else 5
     hs = list(enumerate(h for n in range(1, maxlen + 1) for h in itertools.product(SYMS, repeat=n)))
     r = vp.rng(seed, "c02-len")
-    nrand = 400 if tier == "quick" else 4000
+    nrand = 1200 if tier == "quick" else 6000
     rnd = [(i, r.randint(5, 20 if tier == "quick" else 40)) for i in range(nrand)]
     shards = [("enum", s, seed, work) for s in vp.split(hs, vp.NCPU * 2)] + [("rand", s, seed, work) for s in vp.split(rnd, vp.NCPU)]
     for d in vp.pmap(shard_run, shards):
